@@ -13,7 +13,7 @@ CONSTANTS
   NeededAnswers = {TRUE, FALSE}
   AllowedAnswers = {TRUE, FALSE}
   CheckAnswers <- MCCheckSched
-  NextAnswers <- MCNextAllAbs
+  NextAnswers <- MCNextAbs
   BackoffDraws = {0}
   ProgressSeqs <- MCProg0
   MaxChecks = 1
@@ -30,5 +30,5 @@ CONSTANTS
   Bounded = TRUE
   Mut = "none"
 INVARIANT NoViolation
-INVARIANT PrintDone
+VIEW View
 CHECK_DEADLOCK FALSE
